@@ -248,7 +248,7 @@ func (a *Affiliation) computeTriggersForTypes(lhsType types.Type, rhsType types.
 
 	// Don't process if the affiliation is already analyzed in upstream packages' upstreamCache or
 	// the current package's upstreamCache.
-	key := computeAfflitiationCacheKey(lhsObj, rhsObj)
+	key := computeAfflitiationCacheKey(lhsType, lhsObj, rhsObj)
 	if upstreamCache.Value(key) {
 		return nil
 	}
@@ -297,8 +297,14 @@ func getFullyQualifiedName(t types.Type) string {
 	return s
 }
 
-func computeAfflitiationCacheKey(interfaceObj *types.Interface, concreteObj *types.Named) Pair {
-	interfaceObjFQ := getFullyQualifiedName(interfaceObj)
+func computeAfflitiationCacheKey(interfaceType types.Type, interfaceObj *types.Interface, concreteObj *types.Named) Pair {
+	// Prefer the name of the declared interface type: the first method of the underlying interface
+	// may be promoted from an embedded interface, in which case distinct interfaces that embed the
+	// same interface would share a key.
+	interfaceObjFQ := getFullyQualifiedName(types.Unalias(interfaceType))
+	if interfaceObjFQ == "" {
+		interfaceObjFQ = getFullyQualifiedName(interfaceObj)
+	}
 	concreteObjFQ := getFullyQualifiedName(concreteObj)
 	return Pair{
 		ImplementedID: concreteObjFQ,
